@@ -636,15 +636,25 @@ Plan gen_auth(uint64_t seed, bool th) {
     if (r.pct(30)) one_line();
     add("line", {}, {"BEGIN"});
     if (r.pct(60)) add("msg");
-  } else if (shape < 68) {
-    // OK obtained, then CANCEL, then another mechanism / identity
-    add("line", {}, {"AUTH EXTERNAL " + hex(std::to_string(puid))});
+  } else if (shape < 72) {
+    // OK obtained, then CANCEL, then another mechanism / identity: nothing of the abandoned exchange may survive
+    // (every way of reaching OK first: identity in the initial response, in a DATA line, or none at all - the
+    // credentials of the socket; a complete cookie exchange)
+    auto reach_ok = [&]() {
+      int v = (int)r.below(100);
+      if (v < 35) add("line", {}, {"AUTH EXTERNAL " + hex(std::to_string(puid))});
+      else if (v < 60) { add("line", {}, {"AUTH EXTERNAL"}); add("line", {}, {"DATA"}); }
+      else if (v < 75) { add("line", {}, {"AUTH EXTERNAL"}); add("line", {}, {"DATA " + hex(std::to_string(puid))}); }
+      else if (v < 90) { add("line", {}, {"AUTH DBUS_COOKIE_SHA1 " + hex(std::to_string(suid))}); add("cookie", {0, (int64_t)r.below(100)}); }
+      else add("line", {}, {"AUTH ANONYMOUS"});
+    };
+    reach_ok();
     add("line", {}, {r.pct(60) ? "CANCEL" : "ERROR"});
-    if (r.pct(50)) one_line();
-    if (r.pct(60)) add("line", {}, {"AUTH ANONYMOUS"});
+    if (r.pct(30)) one_line();
+    if (r.pct(75)) { if (r.pct(60)) add("line", {}, {r.pct(50) ? "AUTH ANONYMOUS" : "AUTH ANONYMOUS " + hex("x")}); else reach_ok(); }
     add("line", {}, {"BEGIN"});
     if (r.pct(60)) add("msg");
-  } else if (shape < 74) {
+  } else if (shape < 77) {
     // message data before BEGIN
     add("line", {}, {"AUTH EXTERNAL " + hex(std::to_string(puid))});
     add("msg");
